@@ -562,6 +562,21 @@ def run_case(case, seed):
                     fails.append(fail("stale_result_after_inplace_update", f"{name}: after overwriting the argument in place the call returns a different value than on a fresh copy of the same data", **tags))
                 elif okf and ok1 and canon_plain(rf) == c1 and name not in SCALE_BLIND and not name.startswith("struct:"):
                     fails.append(fail("battery_alt_not_discriminating", f"{name}: alternate data gives the same result (check design)", **tags))
+            # read-only arguments: a routine that never writes into its arguments accepts them
+            if any(isinstance(x, np.ndarray) for x in args):
+                ro_args = []
+                for x in args:
+                    if isinstance(x, np.ndarray):
+                        x = x.copy()
+                        x.setflags(write=False)
+                    ro_args.append(x)
+                np.random.seed(777)
+                okr, rr = call(fn, *ro_args)
+                evals += 1
+                if not okr:
+                    fails.append(fail("writes_into_argument", f"{name}: raises on read-only arguments: {type(rr).__name__}: {rr}", **tags))
+                elif canon_plain(rr) != canon_plain(r1):
+                    fails.append(fail("repeat_call_differs", f"{name}: read-only copies of the arguments give a different value", **tags))
             if not rnd:
                 # a deterministic routine must not depend on (or consume) the global random stream
                 np.random.seed(991)
